@@ -153,7 +153,7 @@ func SetOf(as ...Atom) Val {
 
 // MapOf builds a normalised map value from key/value pairs (later duplicates win).
 func MapOf(kv ...Atom) Val {
-	v := Val{M: true}
+	v := EmptyMap()
 	for i := 0; i+1 < len(kv); i += 2 {
 		v = v.WithPair(kv[i], kv[i+1])
 	}
